@@ -11,9 +11,14 @@ with tempfile.TemporaryDirectory() as td:
     env = dict(os.environ)
     env.pop("URLLIB3_VERIF", None)
     env["PYTHONPATH"] = os.path.join(repo, "src")
-    p = subprocess.run(["/venv/bin/python", "-m", "pytest", "-ra", "-q", "-p", "no:cacheprovider", "--timeout=900",
+    # the suite sometimes hangs at interpreter exit (server threads of the dummy servers keep spinning after
+    # pytest has written its report), so give it a hard limit and read whatever report was written
+    try:
+        subprocess.run(["/venv/bin/python", "-m", "pytest", "-ra", "-q", "-p", "no:cacheprovider", "--timeout=900",
                         "--continue-on-collection-errors", "--junitxml=" + xml], cwd=repo, env=env,
-                       capture_output=True, text=True)
+                       capture_output=True, text=True, timeout=int(os.environ.get("BASELINE_LIMIT", "900")))
+    except subprocess.TimeoutExpired:
+        print("note: pytest did not exit within the limit; using the report it wrote")
     passed = set()
     for tc in ET.parse(xml).getroot().iter("testcase"):
         if not any(ch.tag in ("failure", "error", "skipped") for ch in tc):
